@@ -54,5 +54,7 @@ func DialWithTLS(c websocket.DialConfig) (websocket.Conn, error) {
 	if err != nil {
 		return nil, err
 	}
+	// the library refuses messages above 32768 bytes unless told otherwise (the coder backend lifts its limit too)
+	wsconn.SetReadLimit(-1)
 	return New(wsconn), nil
 }
